@@ -305,7 +305,7 @@ pub fn value_grid(rng: &mut Rng, thorough: bool, f: &mut dyn FnMut(bool, u128)) 
     }
 }
 
-fn typed_leaf<S: bcder::decode::Source>(which: u8, c: &mut Constructed<S>) -> Result<(), bcder::decode::DecodeError<S::Error>> {
+pub fn typed_leaf<S: bcder::decode::Source>(which: u8, c: &mut Constructed<S>) -> Result<(), bcder::decode::DecodeError<S::Error>> {
     use bcder::{BitString, Integer, OctetString, Oid, Unsigned, Utf8String};
 
     match which {
